@@ -329,6 +329,22 @@ def _tv(p):
                 raise Bad("Value::get(key) hands out a %s where iteration gave a %s" % (g, t))
             ents.append((k, d))
         p.i += 1
+        p.eat("r=")
+        back = p.rx(r"[-0-9a-f+]*")
+        p.eat("x=")
+        alt = p.rx(r"[-0-9a-f+]*")
+        keys = [k for k, _ in ents]
+        want_back = "+".join(reversed(keys)) if keys else "-"
+        a, lo, hi = [], 0, len(keys) - 1
+        while lo <= hi:
+            a.append(keys[lo]); lo += 1
+            if lo <= hi:
+                a.append(keys[hi]); hi -= 1
+        want_alt = "+".join(a) if a else "-"
+        if back != want_back:
+            raise Bad("a Map read from the back gives %s, forwards %s" % (back, "+".join(keys)))
+        if alt != want_alt:
+            raise Bad("a Map read alternately from both ends gives %s, expected %s" % (alt, want_alt))
         if pl != ["m:%d" % len(ents)]:
             raise Bad("table payload %r with %d entries" % (pl, len(ents)))
         return tn, "{%s}" % ",".join("%s=%s" % kv for kv in sorted(ents))
